@@ -24,6 +24,7 @@ func runReplay(path, scratch string) int {
 		Signature map[string]string `json:"signature"`
 		Replay    struct {
 			Links []Link     `json:"links"`
+			Move  string     `json:"move"`
 			Chain *chainCase `json:"chain"`
 			Cwd   string     `json:"cwd"`
 			Query string     `json:"query"`
@@ -60,14 +61,14 @@ func runReplay(path, scratch string) int {
 			return 2
 		}
 	} else {
-		res, structural, err := w.setup(r.Links, 0)
+		res, structural, err := w.setup(config{Links: r.Links, Move: r.Move}, 0)
 		if err != nil {
 			fmt.Fprintln(os.Stderr, "c04 replay:", err)
 
 			return 2
 		}
 
-		fmt.Printf("links: %v\nsetup on MemFS: %s %s %v\n", r.Links, res.Kind, res.Msg, structural)
+		fmt.Printf("links: %v move: %q\nsetup on MemFS: %s %s %v\n", r.Links, r.Move, res.Kind, res.Msg, structural)
 
 		if res.Kind != "ok" {
 			return 1
